@@ -12,7 +12,7 @@ from .c05 import variant
 class C09(ProgramProperty):
     id = "C09"
     theorems = ["C09_empty", "C09_wf", "C09_union", "C09_error", "C09_priority", "C09_singleton", "C09_sub_records",
-                "C09_sub_expand"]
+                "C09_sub_expand", "C09_grouping", "C09_ci_separated"]
     lean_modules = ["CuriesVerif.Properties.C09"]
     rule = ("one case = 1-4 strict converters (default delimiter) where later converters are derived from earlier ones "
             "with planted overlaps (same CURIE prefix with another URI prefix, same URI prefix under another name, "
@@ -137,9 +137,10 @@ class C09(ProgramProperty):
             steps.append({"op": "add_prefix", "c": 20, "p": t["p"], "u": t["u"], "merge": True, **ext})
             steps.append({"op": "add_prefix", "c": 12, "p": t["p"], "u": t["u"], "merge": True,
                           "ps": [cps("acq2")], "us": []})
-            steps += [q(20, "records"), q(0, "records"), q(0, "get_prefixes", s=True), q(0, "get_uri_prefixes", s=True),
-                      {"op": "sub", "dst": 21, "src": 0, "prefixes": [cps(x) for x in subset]}, q(21, "records"),
-                      {"op": "chain", "dst": 22, "srcs": [0], "cs": True}, q(22, "records"),
+            steps += [q(20, "records"), q(20, "delimiter"), q(0, "records"), q(0, "delimiter"), q(0, "get_prefixes", s=True),
+                      q(0, "get_uri_prefixes", s=True),
+                      {"op": "sub", "dst": 21, "src": 0, "prefixes": [cps(x) for x in subset]}, q(21, "records"), q(21, "delimiter"),
+                      {"op": "chain", "dst": 22, "srcs": [0], "cs": True}, q(22, "records"), q(22, "delimiter"),
                       {"op": "fresh", "dst": 23, "src": 0, "extra": []}, q(23, "records")]
             for p in pp[:4]:
                 steps += [q(21, "expand_pair", p, "1"), q(22, "expand_pair", p, "1")]
